@@ -13,6 +13,7 @@ FORMATS = {  # ext -> (HasLen, CanSeek, HasTell)
     "h5": (True, True, True), "xtc": (True, True, True), "trr": (True, True, True), "dcd": (True, True, True), "nc": (True, True, True),
     "xyz": (True, True, True), "dtr": (True, True, True), "mdcrd": (False, True, True), "lammpstrj": (False, True, True),
     "arc": (False, False, False),
+    "stale.dcd": (True, True, True),      # header NSET field disagrees with the frames present (mdtraj recomputes it from the file size)
 }
 AIDX = [0, 2, 5]
 
@@ -60,6 +61,13 @@ def _prepare(scratch, N):
         path = os.path.join(d, "t." + ext)
         if ext == "arc":
             ref = trajgen.make_arc(path, N)
+        elif ext == "stale.dcd":
+            import struct
+            trajgen.write_file(path, N)
+            with open(path, "r+b") as f:       # CHARMM header: int32 block length, "CORD", NSET ...
+                f.seek(8)
+                f.write(struct.pack("<i", 0))
+            ref = [(f + 1) * 0.1 * 10.0 for f in range(N)]
         else:
             trajgen.write_file(path, N)
             ref = [(f + 1) * 0.1 * trajgen.scale_of(ext) for f in range(N)]
